@@ -220,6 +220,57 @@ func (e *UMulti) Error() string {
 }
 func (e *UMulti) Unwrap() []error { return e.Causes }
 
+// UMultiCause: unregistered multi-cause type that also has a Cause()
+// method (returning its first cause), as some error-group types do.
+type UMultiCause struct {
+	Msg    string
+	Causes []error
+}
+
+func (e *UMultiCause) Error() string {
+	s := e.Msg
+	for _, c := range e.Causes {
+		s += "; " + c.Error()
+	}
+	return s
+}
+func (e *UMultiCause) Unwrap() []error { return e.Causes }
+
+// ULeafAs: leaf with an As method: it can be seen as a *ULeafPtr
+// carrying the same message.
+type ULeafAs struct {
+	Msg string
+	Alt *ULeafPtr // what As stores (one object, so that results can be compared by identity)
+}
+
+func (e *ULeafAs) Error() string { return e.Msg }
+func (e *ULeafAs) As(target interface{}) bool {
+	if t, ok := target.(**ULeafPtr); ok {
+		*t = e.Alt
+		return true
+	}
+	return false
+}
+
+// UWrapAsSelf: wrapper that is assignable to *UWrapAsSelf and whose As
+// method would store a different value for that same target (the
+// standard library checks assignability first).
+type UWrapAsSelf struct {
+	Msg   string
+	Cause error
+	Alt   *UWrapAsSelf // what As stores
+}
+
+func (e *UWrapAsSelf) Error() string { return e.Msg + ": " + e.Cause.Error() }
+func (e *UWrapAsSelf) Unwrap() error { return e.Cause }
+func (e *UWrapAsSelf) As(target interface{}) bool {
+	if t, ok := target.(**UWrapAsSelf); ok {
+		*t = e.Alt
+		return true
+	}
+	return false
+}
+
 // ---- registered user types (own encoder/decoder) ----
 
 // RLeaf: registered leaf with decoder only (message round-trips).
@@ -301,10 +352,15 @@ func init() {
 		})
 	errbase.RegisterMultiCauseEncoder(errbase.GetTypeKey(&RMulti{}),
 		func(_ context.Context, err error) (string, []string, proto.Message) {
-			return err.(*RMulti).Msg, nil, nil
+			// A payload, so that a process that does not know the type
+			// has something to carry through.
+			return err.(*RMulti).Msg, nil, &errorspb.StringPayload{Msg: err.(*RMulti).Msg}
 		})
 	errbase.RegisterMultiCauseDecoder(errbase.GetTypeKey(&RMulti{}),
-		func(_ context.Context, causes []error, msg string, _ []string, _ proto.Message) error {
+		func(_ context.Context, causes []error, msg string, _ []string, payload proto.Message) error {
+			if p, ok := payload.(*errorspb.StringPayload); !ok || p.Msg != msg {
+				return nil
+			}
 			return &RMulti{msg, causes}
 		})
 }
